@@ -217,3 +217,52 @@ def wrappers_ops(depth: int, per_op: int = 4) -> Tuple[str, List[Tuple[str, str]
         body = " ".join(f"{fn}{sel.get(kind, '')}" for fn, kind, _ in chunk)
         ops.append((f"W{i}", f"query W{i} {{ {body} }}"))
     return sdl, ops
+
+
+# ---------------------------------------------------------------------------------------------------
+# F: fragment graphs (C08 / C10)
+FRAG_POOL = {
+    "UA": "fragment UA on User { id }",
+    "UB": "fragment UB on User { name ...UA }",
+    "UC": "fragment UC on User { age ...UB }",
+    "UD": "fragment UD on User { ...UA ...UB }",
+    "UE": "fragment UE on User { ...UA color }",
+    "NA": "fragment NA on Node { id }",
+    "NB": "fragment NB on Node { ...NA }",
+    "MA": "fragment MA on Named { name }",
+    "TA": "fragment TA on Thing { ... on User { name } }",
+    "UI": "fragment UI on User { id ... on User { age } }",
+    "BA": "fragment BA on Bot { model }",
+    "UF": "fragment UF on User { bestFriend { ...UA } pet { barks } }",
+    "Aaa": "fragment Aaa on User { ...UE ...UF }",
+    "ZU": "fragment ZU on User { score }",
+}
+FRAG_OPS = [
+    "user { ...UA }", "user { ...UB }", "me { ...UC }", "user { ...UD }", "users { ...UE }", "node { ...NA }", "node { ...NB }",
+    "node { ...UA }", "user { ...NA }", "named { ...MA ...NA }", "things { ...TA }", "user { ...UI }", "node { ...BA }", "user { ...UF }",
+    "user { ...Aaa }", "user { bestFriend { ...UA } friends { ...UB } }", "user { id ...UA name }", "nodes { ...NA ... on User { ...UA } }",
+    "me { ...ZU ...UA }", "thing { ... on User { ...UE } }", "user { ...UA @include(if: true) }",
+]
+
+
+def fragment_packages(n_packages: int, ops_per_package: int, seed: int, avoid: Tuple[str, ...] = ()) -> List[dict]:
+    schema = build_schema(S_ABS)
+    rnd = random.Random(seed)
+    jobs = []
+    pool = [o for o in FRAG_OPS if not any(a in o for a in avoid)]
+    for pi in range(n_packages):
+        chosen = rnd.sample(pool, min(ops_per_package, len(pool)))
+        ops = [f"query F{pi}x{i} {{ {o} }}" for i, o in enumerate(chosen)]
+        text = "\n".join(ops)
+        frs = used_fragments(text, FRAG_POOL)
+        extra = [f for f in FRAG_POOL if f not in frs and not any(a in FRAG_POOL[f] or a == f for a in avoid)]
+        if extra and rnd.random() < 0.5:
+            frs.append(rnd.choice(extra))  # an unused fragment
+            frs = sorted(set(frs + used_fragments(FRAG_POOL[frs[-1]], FRAG_POOL)))
+        defs = ops + [FRAG_POOL[f] for f in frs]
+        rnd.shuffle(defs)  # definition order in the queries file
+        q = "\n".join(defs)
+        if validate(schema, parse(q), RULES):
+            continue
+        jobs.append({"schema": S_ABS, "queries": q, "config": {"convert_to_snake_case": bool(pi % 2)}, "ops": [f"F{pi}x{i}" for i in range(len(chosen))]})
+    return jobs
